@@ -27,4 +27,6 @@ func driver(prop string) core.Driver {
 	return nil
 }
 
-func main() { core.Main(driver, c08.Observe) }
+func main() {
+	core.Main(driver, func(sc *core.Scenario, n int) string { return c08.Observe(sc, n, 6000) })
+}
